@@ -18,6 +18,8 @@ import Lumina.Gen.C38
     start n=N sw=K pw=J bs=B d=D      fresh store, Syncer::start, no peers
     connect                            one trusted peer connects            => headreq | ok
     head h=<height> | head h=err       answer the pending head request      => accepted|retry <state>
+                                       (premise: the head trusted peers report is inside the sampling
+                                       window; an older height is refused: `stale-head`, request stays pending)
     ans i=<idx> k=<kind>               answer the idx-th outstanding request (sorted by origin, descending)
          kinds: h honest | t<k> first k | f fork | g foreign | i<j> j-th invalid | u<j> j-th re-signed
                 e transport error | n not-found | x gap | r reversed | m one too many | z empty
@@ -81,6 +83,12 @@ def insDesc (x : Nat × Nat) : List (Nat × Nat) → List (Nat × Nat)
 
 def sortDesc (l : List (Nat × Nat)) : List (Nat × Nat) := l.foldr insDesc []
 
+def insAsc (x : Nat) : List Nat → List Nat
+  | [] => [x]
+  | y :: ys => if x ≤ y then x :: y :: ys else y :: insAsc x ys
+
+def sortAsc (l : List Nat) : List Nat := l.foldr insAsc []
+
 def outstanding (st : St) : List (Nat × Nat) :=
   match st.sess with
   | some ss => sortDesc ss.tasks
@@ -91,7 +99,11 @@ def showState (st : St) : String :=
   let outs := if out.isEmpty then "-" else ",".intercalate (out.map (fun r => s!"{r.1}+{r.2}"))
   let head := match st.s.head with | some h => h | none => 0
   let ph := if st.s.phase == .connected then 1 else 0
-  s!"st={showRanges st.s.store.storedRanges} pr={showRanges st.s.store.prunedRanges} head={head} out={outs} ph={ph} off=-"
+  -- the model's own answer to "which stored headers are not the honest chain's": the simulated
+  -- headers carry their chain in the id (0 = honest)
+  let offs := sortAsc ((st.s.store.hdrs.filter (fun x => tagOf x != 0)).map (·.height))
+  let off := if offs.isEmpty then "-" else ",".intercalate (offs.map toString)
+  s!"st={showRanges st.s.store.storedRanges} pr={showRanges st.s.store.prunedRanges} head={head} out={outs} ph={ph} off={off}"
 
 /-- apply one worker event; a scheduled request starts a new header session -/
 def apply (st : St) (ev : Ev) : St :=
@@ -191,6 +203,8 @@ def step (st : St) (line : String) : St × String :=
       | some v =>
         match v.toNat? with
         | some h =>
+          -- premise (`HeadFresh`): trusted peers report a head inside the sampling window
+          if (env st).chain.oldS h then (st, "stale-head") else
           let st' := apply st (.netHead (mkHdr 0 h))
           if st'.s.phase == .connected then
             let st' := { st' with headReq := false }
@@ -264,7 +278,8 @@ def spec (st : St) (op : String) (obs : String) : String :=
           else if Lumina.Spec.C38.specConverged stored (st.n + 1 - st.sw) head then "specok"
           else "specfail C38/not-converged a height of the sampling window up to the head is missing although honest peers answered everything"
         | _ => "specok"
-    | _, _, _ => if os.head? == some "bad-op" then "specskip" else "specfail C38/unparsed"
+    | _, _, _ =>
+      if os.head? == some "bad-op" || os.head? == some "stale-head" then "specskip" else "specfail C38/unparsed"
 
 def handler : Driver.Handler St := { init := {}, step := step, spec := spec }
 
